@@ -838,7 +838,14 @@ pub fn gen_c17(seed: u64) -> Plan {
             };
             b.uni.table.syn[up] = SynSpec {
                 ident: "AboveRoot".into(),
-                path: Some("../../../../../../../../../up/AboveRoot.ts".into()),
+                // far above the root, or (the boundary) exactly one `..` more than the default
+                // base directory is deep
+                path: Some(if b.rng.pct(50) {
+                    "../../../../../../../../../up/AboveRoot.ts".to_string()
+                } else {
+                    let depth = default_abs.split('/').filter(|c| !c.is_empty()).count();
+                    format!("{}up/AboveRoot.ts", "../".repeat(depth + 1))
+                }),
                 body: up_body,
                 deps: up_deps,
             };
